@@ -25,7 +25,7 @@ def layouts(draw, big=False, jsrun=False):
 
 
 @st.composite
-def task_specs(draw, layout, light=False, allow_bad=True, jsrun=False):
+def task_specs(draw, layout, light=False, allow_bad=True, jsrun=False, heavy=False):
     c, g = layout['cores'], layout['gpus']
     spec = {}
     r = draw(st.integers(0, 40))
@@ -49,13 +49,15 @@ def task_specs(draw, layout, light=False, allow_bad=True, jsrun=False):
     elif draw(st.integers(0, 25)) == 0:
         spec['gpus_per_rank'] = 1.0
     if not light:
-        if layout['lfs'] and draw(st.integers(0, 3)) == 0:
+        if layout['lfs'] and draw(st.integers(0, 0 if heavy else 3)) == 0:
             spec['lfs_per_rank'] = draw(st.sampled_from(
-                [layout['lfs'] // 4, layout['lfs'] // 2, layout['lfs'] // 2 + 1,
+                [layout['lfs'] // 5, layout['lfs'] // 4, layout['lfs'] // 3,
+                 layout['lfs'] // 2, layout['lfs'] // 2 + 1,
                  layout['lfs'], layout['lfs'] + 1]))
-        if layout['mem'] and draw(st.integers(0, 3)) == 0:
+        if layout['mem'] and draw(st.integers(0, 1 if heavy else 3)) == 0:
             spec['mem_per_rank'] = draw(st.sampled_from(
-                [layout['mem'] // 4, layout['mem'] // 2, layout['mem'] // 2 + 1,
+                [layout['mem'] // 5, layout['mem'] // 4, layout['mem'] // 3,
+                 layout['mem'] // 2, layout['mem'] // 2 + 1,
                  layout['mem'], layout['mem'] + 1]))
         if not jsrun and draw(st.integers(0, 5)) == 0:
             spec['ranks_per_node'] = draw(st.sampled_from([1, 2]))
@@ -69,10 +71,14 @@ def task_specs(draw, layout, light=False, allow_bad=True, jsrun=False):
 
 @st.composite
 def histories(draw, max_ops=40, big=False, cls='continuous', scattered=None,
-              app=True, light=False, named_env=False, allow_bad=True):
+              app=True, light=False, named_env=False, allow_bad=True, heavy=False):
     jsrun = (cls == 'jsrun')
     layout = draw(layouts(big=big, jsrun=jsrun))
-    spec = task_specs(layout, light=light, allow_bad=allow_bad, jsrun=jsrun)
+    if heavy:
+        layout['lfs'] = layout['lfs'] or 1000
+        layout['mem'] = layout['mem'] or 1024
+        layout['cores'] = max(layout['cores'], 4)
+    spec = task_specs(layout, light=light, allow_bad=allow_bad, jsrun=jsrun, heavy=heavy)
     ops = []
     n_ops = draw(st.integers(3, max_ops))
     for _ in range(n_ops):
